@@ -323,6 +323,9 @@ func (g *gen) valueTruthy() {
 			g.fail("data/value.go: (%s).Truthy is not a chain of `if <translatable boolean expression> { return ... }` ending in `return <translatable boolean expression>`", k)
 			body = "false (* UNTRANSLATABLE *)"
 		}
+		if ok {
+			body = keepAtomSpelling(name, body, []string{"x", "is_zero", "is_nan", "is_empty"})
+		}
 		g.p("Definition %s%s : bool := %s.\n", name, truthyParams[k], body)
 		js[name] = body
 	}
